@@ -44,7 +44,8 @@ RULE = ("sequences of 1-4 operations (plain call, dotted / Unicode / spaced meth
         "Unix socket}; every single value of the edge pool once as sole positional argument and once as keyword argument under both "
         "versions. Observed: outcome of each operation, invocation log, History texts (parsed, generated ids masked) and their identity "
         "with the texts the server saw. Non-trivial: an argument or result that is a container or a falsy / non-ASCII / boundary leaf. "
-        "Distinct by case hash.")
+        "Distinct by case hash."
+        ' Added after the seeded rounds: `registry` stream (functions registered again, the instance replaced or stripped of names, members replaced or deleted, between calls of one name; each call is one Dispatch.v case under the registry of its moment), `builtins` stream (oracle only: 20 callables implemented in C, the reference is the callable itself).')
 MANIFEST_ENTRY = {
     "text": ("Theorems (Coq, closed under the global context) about Model/EndToEnd.v, the value-level composition of the Payload, "
              "Dispatch and Client models: for EVERY registered function, method name, JSON argument list or keyword map that binds, "
